@@ -27,6 +27,8 @@ EDGES_X = [0, 12, 24, 40]       # bin edges of `xb` in quarter units  (0, 3, 6, 
 LAB_X = ["lo", "mid", "hi"]
 EDGES_PV = [0, 8, 16]           # bin edges of `pvb` (pipeline value 0..3) in quarter units (0, 2, 4)
 LAB_PV = ["plo", "phi"]
+EDGES_PW = [4, 8, 16]           # bin edges of `pwb` (pipeline value 1..3) in quarter units (1, 2, 4)
+LAB_PW = ["w1", "w23"]
 
 # kind -> (categories, columns used, python mapper over a snapshot row -> raw mapper output (str) )
 #   raw output "NaN" stands for a missing value (pd.cut outside the bins)
@@ -45,9 +47,23 @@ def pv_of(row):
     return ((3 * row["y"] + row["sid"]) % 4) * SCALE
 
 
+def pw_of(row):
+    """value pipeline `pw`: source (y + 2*sid) mod 3 (returned in REVERSED row order) + a registered modifier adding 1"""
+    return ((row["y"] + 2 * row["sid"]) % 3 + 1) * SCALE
+
+
+def pz_of(row):
+    """value pipeline `pz`, produced by a DIFFERENT component: sid mod 2"""
+    return (row["sid"] % 2) * SCALE
+
+
+PIPES = {"pv": pv_of, "pw": pw_of, "pz": pz_of}
+
 KINDS = {
     # categorical column, default mapper (mapper=None)
     "g": (["a", "b", "c"], lambda r: r["g"]),
+    # default mapper on a column of CATEGORICAL dtype (whose own categories are a superset, in another order)
+    "cdef": (["c1", "c2", "c3"], lambda r: r["c"]),
     # per-row mapper (is_vectorized=False) over one column
     "h2": (["U", "V"], lambda r: r["h"].upper()),
     # binned column (register_binned_stratification, target_type column)
@@ -70,13 +86,23 @@ KINDS = {
     "hrev": (["ru", "rv"], lambda r: "r" + r["h"]),
     # build a DataFrame, sort it by another column, return one of its columns
     "xfr": (["small", "large"], lambda r: "small" if r["x"] < 5 * SCALE else "large"),
+    # several value pipelines at once (the results manager evaluates every required pipeline per event and must attach
+    # each under its own name, by label): vectorised over pv + pw, per-row over pz + pw, binned pw
+    "pq": (["q0", "q1"], lambda r: "q%d" % (((pv_of(r) + pw_of(r)) // SCALE) % 2)),
+    "zw": (["z0w1", "z0w2", "z0w3", "z1w1", "z1w2", "z1w3"], lambda r: "z%dw%d" % (pz_of(r) // SCALE, pw_of(r) // SCALE)),
+    "pwb": (LAB_PW, lambda r: _bin(pw_of(r), EDGES_PW, LAB_PW)),
 }
 REORDERING = ("gcat", "ysort", "hrev", "xfr")
-AGGS = ["len", "count", "sumy", "sumx", "sumpv", "sumy_nosrc"]
+# binned kinds: kind -> (what the number is taken from, edges)
+BINNED = {"xb": (lambda r: r["x"], EDGES_X), "pvb": (pv_of, EDGES_PV), "pwb": (pw_of, EDGES_PW)}
+AGGS = ["len", "count", "sumy", "sumx", "sumpv", "sumpw", "sumy_nosrc", "multi"]
+T0 = "2020-01-01"
 
 
 def row_value(agg, r):
     """the additive aggregate's per-simulant summand, in the observation's integer unit"""
+    if agg == "zero":
+        return 0
     if agg in ("len", "count"):
         return 1
     if agg in ("sumy", "sumy_nosrc"):
@@ -85,18 +111,37 @@ def row_value(agg, r):
         return r["x"]          # quarter units
     if agg == "sumpv":
         return pv_of(r)        # quarter units
+    if agg == "sumpw":
+        return pw_of(r)
     raise ValueError(agg)
 
 
 def agg_scale(agg):
-    return SCALE if agg in ("sumx", "sumpv") else 1
+    return SCALE if agg in ("sumx", "sumpv", "sumpw") else 1
+
+
+def vobs(case):
+    """Observations as the model and the oracle see them.  An aggregator that returns a Series (`multi`: n = count,
+    sy = sum of y) yields one value column per entry; each column is an additive measure of its own."""
+    out = []
+    for o in case["obs"]:
+        if o["type"] == "add" and o["agg"] == "multi":
+            # the framework's own `value` column stays in the result and never receives anything
+            out.append(dict(o, agg="zero", vcol="value", src=o["name"], vset=["value", "n", "sy"]))
+            out.append(dict(o, name=o["name"] + "__n", agg="len", vcol="n", src=o["name"], vset=["value", "n", "sy"]))
+            out.append(dict(o, name=o["name"] + "__sy", agg="sumy", vcol="sy", src=o["name"], vset=["value", "n", "sy"]))
+        else:
+            out.append(dict(o, vcol="value", src=o["name"], vset=["value"]))
+    return out
 
 
 def atom_holds(atom, r):
     col, op, c = atom
-    v = {"tracked": r["tracked"], "y": r["y"], "x": Fraction(r["x"], SCALE), "g": r["g"], "h": r["h"],
-         "pv": Fraction(pv_of(r), SCALE)}[col]
-    if col in ("x", "pv"):
+    v = {"tracked": r["tracked"], "y": r["y"], "x": Fraction(r["x"], SCALE), "g": r["g"], "h": r["h"], "c": r["c"],
+         "pv": Fraction(pv_of(r), SCALE), "pw": Fraction(pw_of(r), SCALE), "pz": Fraction(pz_of(r), SCALE)}[col]
+    if op == "in":
+        return v in c
+    if col in ("x", "pv", "pw", "pz"):
         c = Fraction(c).limit_denominator(64)
     return {"==": v == c, "!=": v != c, "<": v < c, "<=": v <= c, ">": v > c, ">=": v >= c}[op]
 
@@ -111,28 +156,64 @@ def passes(flt, r):
 def query_string(flt):
     out = []
     for col, op, c in flt:
-        out.append(f"{col} {op} {c!r}" if not isinstance(c, str) else f'{col} {op} "{c}"')
+        if op == "in":
+            out.append(f"{col} in [" + ", ".join(f'"{x}"' for x in c) + "]")
+        else:
+            out.append(f"{col} {op} {c!r}" if not isinstance(c, str) else f'{col} {op} "{c}"')
     return " and ".join(out)
 
 
 def filter_columns(flt):
     cols = {a[0] for a in (flt or [])} - {"tracked"}
-    return sorted(cols - {"pv"}), sorted(cols & {"pv"})
+    return sorted(cols - set(PIPES)), sorted(cols & set(PIPES))
 
 
 # ---------------------------------------------------------------------------------------- implementation
 
-def _run(case):
+def _run(case, _is_prior=False):
     impl.load()
     import pandas as pd
     from vivarium import Component
     from vivarium.framework.engine import SimulationContext
     from vivarium.framework.results.observer import Observer
 
-    out = {"outcome": "ok", "error": None, "events": [], "final": None}
+    # process history: earlier simulations in the same process, with their OWN configuration (default stratifications,
+    # observations that rely on the interface's default arguments); nothing of them may leak into this one
+    if not _is_prior:
+        for prior in case.get("prior") or []:
+            try:
+                _run(prior, _is_prior=True)
+            except Exception:  # noqa: BLE001
+                pass
+
+    out = {"outcome": "ok", "error": None, "events": [], "final": None, "after_finalize": None}
     traj = random.Random(case["tseed"])
     T = case["traj"]
     holder = {}
+    datetime_clock = case.get("clock") == "datetime"
+    slow = case.get("slow")
+    objs = bool(case.get("callobj"))
+
+    def tick(x):
+        if isinstance(x, pd.Timestamp):
+            d = (x - pd.Timestamp(T0)) / pd.Timedelta(days=1)
+            return int(d) if d == int(d) else float(d)
+        if isinstance(x, pd.Timedelta):
+            d = x / pd.Timedelta(days=1)
+            return int(d) if d == int(d) else float(d)
+        return int(x)
+
+    class Callable_:
+        """user callables given as callable OBJECTS instead of functions"""
+
+        def __init__(self, fn):
+            self.fn = fn
+
+        def __call__(self, *a, **k):
+            return self.fn(*a, **k)
+
+    def cb(fn):
+        return Callable_(fn) if objs else fn
 
     def new_values(n, sids):
         xs = []
@@ -140,14 +221,36 @@ def _run(case):
             r = traj.random()
             xs.append(traj.choice([0, 12, 24, 39]) if r < T["p_edge"] else traj.randrange(0, 40))
         return {"g": [traj.choice("abc") for _ in range(n)], "h": [traj.choice("uv") for _ in range(n)],
-                "x": [v / SCALE for v in xs], "y": [traj.randrange(0, 6) for _ in range(n)], "sid": list(sids)}
+                "x": [v / SCALE for v in xs], "y": [traj.randrange(0, 6) for _ in range(n)], "sid": list(sids),
+                "c": [traj.choice(["c1", "c2", "c3"]) for _ in range(n)]}
+
+    cdtype = pd.CategoricalDtype(["c3", "c9", "c1", "c2"])
 
     def frame(vals, index):
         return pd.DataFrame({"g": pd.Series(vals["g"], index=index, dtype="str"),
                              "h": pd.Series(vals["h"], index=index, dtype="str"),
                              "x": pd.Series(vals["x"], index=index, dtype="float64"),
                              "y": pd.Series(vals["y"], index=index, dtype="int64"),
-                             "sid": pd.Series(vals["sid"], index=index, dtype="int64")}, index=index)
+                             "sid": pd.Series(vals["sid"], index=index, dtype="int64"),
+                             "c": pd.Series(vals["c"], index=index, dtype=cdtype)}, index=index)
+
+    class Aux(Component):
+        """a second component: produces the pipeline `pz` and (per-simulant clocks) the step-size modifier"""
+
+        @property
+        def name(self):
+            return "aux"
+
+        def setup(self, b):
+            self.view = b.population.get_view(["sid", "tracked"])
+            b.value.register_value_producer("pz", source=lambda idx: (self.view.get(idx)["sid"] % 2).astype(float),
+                                            requires_columns=["sid"])
+            if slow:
+                b.time.register_step_size_modifier(self.step_size)
+
+        def step_size(self, idx):
+            return pd.Series([pd.Timedelta(days=slow["days"]) if int(i) % slow["mod"] == slow["rem"] else pd.NaT for i in idx],
+                             index=idx, dtype="timedelta64[ns]")
 
     class Probe(Component):
         @property
@@ -156,13 +259,15 @@ def _run(case):
 
         @property
         def columns_created(self):
-            return ["g", "h", "x", "y", "sid"]
+            return ["g", "h", "x", "y", "sid", "c"]
 
         def setup(self, b):
             self.creator = b.population.get_simulant_creator()
             self.tv = b.population.get_view(["tracked"])
             self.pvview = b.population.get_view(["y", "sid", "tracked"])
             b.value.register_value_producer("pv", source=self._pv, requires_columns=["y", "sid"])
+            b.value.register_value_producer("pw", source=self._pw, requires_columns=["y", "sid"])
+            b.value.register_value_modifier("pw", modifier=lambda idx, v: v + 1.0)
             for k, ph in enumerate(PH):
                 b.event.register_listener(ph, (lambda e, k=k: self.pre(k, e)), priority=0)
                 b.event.register_listener(ph, (lambda e, k=k: self.post(k, e)), priority=9)
@@ -172,6 +277,10 @@ def _run(case):
             p = self.pvview.get(idx)
             return ((3 * p["y"] + p["sid"]) % 4).astype(float)
 
+        def _pw(self, idx):
+            p = self.pvview.get(idx)
+            return ((p["y"] + 2 * p["sid"]) % 3).astype(float).iloc[::-1]      # complete, id-indexed, other row order
+
         def on_initialize_simulants(self, d):
             self.population_view.update(frame(new_values(len(d.index), d.index), d.index))
 
@@ -179,12 +288,12 @@ def _run(case):
             sim = holder["sim"]
             pop = sim.get_population()
             nb = traj.randint(0, T["max_births"]) if traj.random() < T["p_birth"] else 0
-            changes = {"g": {}, "h": {}, "x": {}, "y": {}}
+            changes = {"g": {}, "h": {}, "x": {}, "y": {}, "c": {}}
             untrack = []
             tracked = pop["tracked"].to_dict() if len(pop) else {}
             for sid in list(pop.index):
                 if traj.random() < T["p_change"]:
-                    col = traj.choice(["g", "h", "x", "y"])
+                    col = traj.choice(["g", "h", "x", "y", "c"])
                     changes[col][sid] = new_values(1, [sid])[col][0]
                 if tracked[sid] and traj.random() < T["p_untrack"]:
                     untrack.append(sid)
@@ -194,30 +303,33 @@ def _run(case):
                 changes[u["col"]][sid] = {"g": "zz", "h": "w", "x": 10.0}[u["col"]]
             for col, ch in changes.items():
                 if ch:
-                    dt = {"g": "str", "h": "str", "x": "float64", "y": "int64"}[col]
+                    dt = {"g": "str", "h": "str", "x": "float64", "y": "int64", "c": cdtype}[col]
                     self.population_view.update(pd.Series(list(ch.values()), index=list(ch.keys()), name=col, dtype=dt))
             if untrack:
                 self.tv.update(pd.Series(False, index=untrack, name="tracked"))
             if nb:
                 self.creator(nb)
+            elif T.get("zero_births") and traj.random() < 0.3:
+                self.creator(0)                      # a birth event of nobody
 
         def pre(self, k, e):
+            n_before = len(holder["sim"].get_population())
             self.mutate(k, "pre")
             sim = holder["sim"]
             pop = sim.get_population()
             inev = set(int(i) for i in e.index)
             rows = []
-            for sid, r in zip(pop.index, pop[["sid", "tracked", "g", "h", "x", "y"]].to_dict("records")):
+            for sid, r in zip(pop.index, pop[["sid", "tracked", "g", "h", "x", "y", "c"]].to_dict("records")):
                 x4 = float(r["x"]) * SCALE
                 rows.append({"sid": int(r["sid"]), "idx": int(sid), "tracked": bool(r["tracked"]), "g": str(r["g"]), "h": str(r["h"]),
-                             "x": int(round(x4)), "xexact": x4 == round(x4), "y": int(r["y"]), "in_event": int(sid) in inev})
-            out["events"].append({"step": self.step, "phase": k, "time": int(e.time), "clock": int(sim._clock.time),
-                                  "rows": rows, "after": None})
+                             "x": int(round(x4)), "xexact": x4 == round(x4), "y": int(r["y"]), "c": str(r["c"]), "in_event": int(sid) in inev})
+            out["events"].append({"step": self.step, "phase": k, "time": tick(e.time), "clock": tick(sim._clock.time),
+                                  "n_before": n_before, "rows": rows, "after": None})
 
         def post(self, k, e):
             sim = holder["sim"]
             res = sim.get_results()
-            out["events"][-1]["after"] = {o["name"]: canon_result(res.get(o["name"]), o, pd)
+            out["events"][-1]["after"] = {o["name"]: canon_result(res.get(o["name"]), o, pd, tick)
                                           for o in case["obs"] if o["when"] == PH[k] and o["name"] in res}
             self.mutate(k, "post")
             if k == 3:
@@ -226,52 +338,87 @@ def _run(case):
     def register_strat(b, s):
         kind, name, ex = s["kind"], s["name"], s.get("excl_code")
         c = list(s.get("cats", KINDS[kind][0]))
+        reg, binreg = b.results.register_stratification, b.results.register_binned_stratification
+
+        def edges(es):
+            """the same edges as list of floats / list of ints / tuple / numpy array (`bin_edges: List[Union[int, float]]`)"""
+            import numpy as np
+            how = s.get("edges_as")
+            vals = [e / SCALE for e in es]
+            if how == "int" and all(v == int(v) for v in vals):
+                return [int(v) for v in vals]
+            if how == "tuple":
+                return tuple(vals)
+            if how == "ndarray":
+                return np.array(vals)
+            return vals
         if kind == "g":
-            b.results.register_stratification(name, c, excluded_categories=ex, requires_columns=["g"])
+            reg(name, c, excluded_categories=ex, requires_columns=["g"])
+        elif kind == "cdef":
+            reg(name, c, excluded_categories=ex, requires_columns=["c"])
         elif kind == "h2":
-            b.results.register_stratification(name, c, excluded_categories=ex, mapper=lambda row: row["h"].upper(),
-                                              is_vectorized=False, requires_columns=["h"])
+            reg(name, c, excluded_categories=ex, mapper=cb(lambda row: row["h"].upper()), is_vectorized=False, requires_columns=["h"])
         elif kind == "xb":
-            b.results.register_binned_stratification("x", name, [e / SCALE for e in EDGES_X], c, excluded_categories=ex)
+            binreg("x", name, edges(EDGES_X), c, excluded_categories=ex)
         elif kind == "pvb":
-            b.results.register_binned_stratification("pv", name, [e / SCALE for e in EDGES_PV], c, excluded_categories=ex,
-                                                     target_type="value")
+            binreg("pv", name, edges(EDGES_PV), c, excluded_categories=ex, target_type="value")
+        elif kind == "pwb":
+            binreg("pw", name, edges(EDGES_PW), c, excluded_categories=ex, target_type="value")
         elif kind == "pvs":
-            b.results.register_stratification(name, c, excluded_categories=ex,
-                                              mapper=lambda df: df["pv"].map(lambda v: "p%d" % int(v)),
-                                              is_vectorized=True, requires_values=["pv"])
+            reg(name, c, excluded_categories=ex, mapper=cb(lambda df: df["pv"].map(lambda v: "p%d" % int(v))),
+                is_vectorized=True, requires_values=["pv"])
+        elif kind == "pq":
+            reg(name, c, excluded_categories=ex,
+                mapper=cb(lambda df: "q" + ((df["pv"] + df["pw"]) % 2).astype(int).astype(str)),
+                is_vectorized=True, requires_values=["pw", "pv"])
+        elif kind == "zw":
+            reg(name, c, excluded_categories=ex, mapper=cb(lambda row: "z%dw%d" % (int(row["pz"]), int(row["pw"]))),
+                is_vectorized=False, requires_values=["pz", "pw"])
         elif kind == "gy":
-            b.results.register_stratification(name, c, excluded_categories=ex,
-                                              mapper=lambda df: df["g"] + (df["y"] % 2).astype(str),
-                                              is_vectorized=True, requires_columns=["g", "y"])
+            reg(name, c, excluded_categories=ex, mapper=cb(lambda df: df["g"] + (df["y"] % 2).astype(str)),
+                is_vectorized=True, requires_columns=["g", "y"])
         elif kind == "hp":
-            b.results.register_stratification(name, c, excluded_categories=ex,
-                                              mapper=lambda row: row["h"] + ("e" if int(row["pv"]) % 2 == 0 else "o"),
-                                              is_vectorized=False, requires_columns=["h"], requires_values=["pv"])
+            reg(name, c, excluded_categories=ex, mapper=cb(lambda row: row["h"] + ("e" if int(row["pv"]) % 2 == 0 else "o")),
+                is_vectorized=False, requires_columns=["h"], requires_values=["pv"])
         elif kind == "gcat":
             def split_concat(df):
                 known = ["c", "a", "b"]
                 parts = [df.loc[df["g"] == v, "g"].str.upper() for v in known]
                 parts.append(df.loc[~df["g"].isin(known), "g"].str.upper())
-                return pd.concat(parts)
-            b.results.register_stratification(name, c, excluded_categories=ex, mapper=split_concat, is_vectorized=True,
-                                              requires_columns=["g"])
+                return pd.concat(parts).astype(object)
+            reg(name, c, excluded_categories=ex, mapper=cb(split_concat), is_vectorized=True, requires_columns=["g"])
         elif kind == "ysort":
-            b.results.register_stratification(name, c, excluded_categories=ex,
-                                              mapper=lambda df: "y" + (df["y"].sort_values(ascending=False) % 3).astype(str),
-                                              is_vectorized=True, requires_columns=["y"])
+            reg(name, c, excluded_categories=ex,
+                mapper=cb(lambda df: "y" + (df["y"].sort_values(ascending=False) % 3).astype(str)),
+                is_vectorized=True, requires_columns=["y"])
         elif kind == "hrev":
-            b.results.register_stratification(name, c, excluded_categories=ex, mapper=lambda df: "r" + df["h"].iloc[::-1],
-                                              is_vectorized=True, requires_columns=["h"])
+            reg(name, c, excluded_categories=ex, mapper=cb(lambda df: "r" + df["h"].iloc[::-1]), is_vectorized=True,
+                requires_columns=["h"])
         elif kind == "xfr":
             def frame_column(df):
                 tmp = df[["x", "y"]].copy()
                 tmp["label"] = tmp["x"].map(lambda v: "small" if v < 5 else "large")
                 return tmp.sort_values(["x", "y"], ascending=[False, True])["label"]
-            b.results.register_stratification(name, c, excluded_categories=ex, mapper=frame_column, is_vectorized=True,
-                                              requires_columns=["x", "y"])
+            reg(name, c, excluded_categories=ex, mapper=cb(frame_column), is_vectorized=True, requires_columns=["x", "y"])
         else:
             raise ValueError(kind)
+
+    def formatter(o):
+        """results_formatter variants; `canon_result` undoes them.  `inplace2` scribbles on what it is given: the raw
+        results must not be affected (get_results hands out copies)"""
+        f = o.get("fmt")
+        if f == "identity":
+            return cb(lambda measure, results: results)
+        if f == "measure":
+            return cb(lambda measure, results: results.reset_index().assign(measure=measure) if o["type"] == "add"
+                      else results.assign(measure=measure))
+        if f == "inplace2":
+            def doubled(measure, results):
+                for c in list(results.columns):
+                    results[c] *= 2
+                return results.reset_index()
+            return cb(doubled)
+        return None
 
     def register_obs(b, o, add, exc):
         fc, fv = filter_columns(o["filter"])
@@ -282,31 +429,62 @@ def _run(case):
             kw["pop_filter"] = query_string(o["filter"])
         m, rem = o["mod"], o["rem"]
         if m > 1:
-            kw["to_observe"] = lambda e, m=m, rem=rem: int(e.time) % m == rem
+            kw["to_observe"] = cb(lambda e, m=m, rem=rem: tick(e.time) % m == rem)
+        fm = formatter(o)
+        if fm is not None:
+            kw["results_formatter"] = fm
         if o["type"] == "cat":
-            cols = ["sid"] + [c for c in o["cols"] if c != "pv"]
-            vals = [c for c in o["cols"] if c == "pv"]
-            kw.update(requires_columns=sorted(set(cols) | set(fc), key=lambda c: (c not in cols, c)), requires_values=sorted(set(vals) | set(fv)))
-            b.results.register_concatenating_observation(**kw)
+            cols = ["sid"] + [c for c in o["cols"] if c not in PIPES]
+            vals = [c for c in o["cols"] if c in PIPES]
+            rc = sorted(set(cols) | set(fc), key=lambda c: (c not in cols, c))
+            rv = sorted(set(vals) | set(fv), key=lambda c: (c not in vals, c))
+            kw.update(requires_columns=rc, requires_values=rv)
+            if o.get("method") == "unstratified":
+                included = ["event_time"] + rc + rv
+                if not o.get("nocb"):
+                    kw["results_gatherer"] = cb(lambda pop: pop[included])
+                    kw["results_updater"] = cb(lambda old, new: new if old.empty else pd.concat([old, new], ignore_index=True))
+                b.results.register_unstratified_observation(**kw)
+            else:
+                b.results.register_concatenating_observation(**kw)
             return
         agg = o["agg"]
         rc, rv = set(fc), set(fv)
         if agg == "count":
-            kw["aggregator"] = lambda df: len(df)
+            kw["aggregator"] = cb(lambda df: len(df))
         elif agg == "sumy":
-            kw.update(aggregator_sources=["y"], aggregator=lambda df: df["y"].sum()); rc.add("y")       # noqa: E702
+            kw.update(aggregator_sources=["y"], aggregator=cb(lambda df: df["y"].sum())); rc.add("y")       # noqa: E702
         elif agg == "sumx":
-            kw.update(aggregator_sources=["x"], aggregator=lambda df: df["x"].sum()); rc.add("x")       # noqa: E702
+            kw.update(aggregator_sources=["x"], aggregator=cb(lambda df: df["x"].sum())); rc.add("x")       # noqa: E702
         elif agg == "sumpv":
-            kw.update(aggregator_sources=["pv"], aggregator=lambda df: df["pv"].sum()); rv.add("pv")    # noqa: E702
+            kw.update(aggregator_sources=["pv"], aggregator=cb(lambda df: df["pv"].sum())); rv.add("pv")    # noqa: E702
+        elif agg == "sumpw":
+            kw.update(aggregator_sources=["pw"], aggregator=cb(lambda df: df["pw"].sum())); rv.add("pw")    # noqa: E702
         elif agg == "sumy_nosrc":
-            kw.update(aggregator=lambda df: df["y"].sum()); rc.add("y")                                  # noqa: E702
+            kw.update(aggregator=cb(lambda df: df["y"].sum())); rc.add("y")                                  # noqa: E702
+        elif agg == "multi":
+            kw.update(aggregator_sources=["y"],
+                      aggregator=cb(lambda df: pd.Series({"n": float(len(df)), "sy": float(df["y"].sum())}))); rc.add("y")   # noqa: E702
         kw.update(requires_columns=sorted(rc), requires_values=sorted(rv))
         if add or o.get("pass_empty"):
             kw["additional_stratifications"] = list(add)
         if exc or o.get("pass_empty"):
             kw["excluded_stratifications"] = list(exc)
-        b.results.register_adding_observation(**kw)
+        if o.get("method") == "stratified":
+            if not o.get("nocb"):
+                def add_up(existing, new):
+                    upd = existing.copy()
+                    for c in new.columns:
+                        if c not in upd.columns:
+                            upd[c] = 0.0
+                        upd[c] = upd[c] + new[c]
+                    return upd
+                kw["results_updater"] = cb(add_up)
+            if fm is None:
+                kw["results_formatter"] = cb(lambda measure, results: results.reset_index())
+            b.results.register_stratified_observation(**kw)
+        else:
+            b.results.register_adding_observation(**kw)
 
     class Direct(Component):
         @property
@@ -336,7 +514,7 @@ def _run(case):
             cfg = b.configuration.stratification[self.get_configuration_name()]
             register_obs(b, self.o, list(cfg.include), list(cfg.exclude))
 
-    comps = [Probe(), Direct()] + [CfgObserver(o) for o in case["obs"] if o.get("via") == "observer"]
+    comps = [Probe(), Aux(), Direct()] + [CfgObserver(o) for o in case["obs"] if o.get("via") == "observer"]
     strat_cfg = {}
     if case["cfg_default"] is not None:
         strat_cfg["default"] = list(case["cfg_default"])
@@ -345,12 +523,16 @@ def _run(case):
     for o in case["obs"]:
         if o.get("via") == "observer":
             strat_cfg[o["name"]] = {"include": list(o.get("add", [])), "exclude": list(o.get("exc", []))}
-    cfg = {"population": {"population_size": case["pop"]},
-           "time": {"start": 0, "end": case["steps"], "step_size": 1}}
+    cfg = {"population": {"population_size": case["pop"]}}
+    plug = None
+    if datetime_clock:
+        cfg["time"] = {"start": {"year": 2020, "month": 1, "day": 1}, "end": {"year": 2021, "month": 1, "day": 1}, "step_size": 1}
+    else:
+        cfg["time"] = {"start": 0, "end": case["steps"], "step_size": 1}
+        plug = {"required": {"clock": {"controller": "vivarium.framework.time.SimpleClock",
+                                       "builder_interface": "vivarium.framework.time.TimeInterface"}}}
     if strat_cfg:
         cfg["stratification"] = strat_cfg
-    plug = {"required": {"clock": {"controller": "vivarium.framework.time.SimpleClock",
-                                   "builder_interface": "vivarium.framework.time.TimeInterface"}}}
     SimulationContext._clear_context_cache()
     stage = "construct"
     try:
@@ -365,13 +547,73 @@ def _run(case):
             sim.step()
         stage = "results"
         res = sim.get_results()
-        out["final"] = {o["name"]: canon_result(res.get(o["name"]), o, pd) for o in case["obs"]}
+        out["final"] = {o["name"]: canon_result(res.get(o["name"]), o, pd, tick) for o in case["obs"]}
         out["final_extra"] = sorted(set(res) - {o["name"] for o in case["obs"]})
+        stage = "finalize"
+        sim.finalize()
+        res = sim.get_results()
+        out["after_finalize"] = {o["name"]: canon_result(res.get(o["name"]), o, pd, tick) for o in case["obs"]}
     except Exception as e:  # noqa: BLE001
         out["outcome"] = stage + "-error"
         out["error"] = f"{type(e).__name__}: {str(e)[:200]}"
         out["error_class"] = type(e).__name__
     return out
+
+
+_WARM = False
+
+
+def _run_isolated(case):
+    """Run the case in a forked child of a process that has imported the implementation but never ran a simulation, so
+    that the process history of a case is exactly what the case says (its `prior` simulations) whatever the pool worker
+    ran before: failures caused by state leaking between simulations replay from the case alone."""
+    import json
+    import os
+    import signal
+    import traceback
+    impl.load()
+    global _WARM
+    if not _WARM:
+        # one fixed, minimal simulation per worker process (no stratification, explicit arguments everywhere) so that lazy
+        # imports and caches are paid once and not in every child; it is the same for every case, hence deterministic
+        _WARM = True
+        try:
+            _run(mk(1, 1, [], [A("warm", flt=[["tracked", "==", True]], pass_empty=True), Cc("warmrows", flt=[["y", ">=", 0]])]),
+                 _is_prior=True)
+        except Exception:  # noqa: BLE001
+            pass
+    r, w = os.pipe()
+    pid = os.fork()
+    if pid == 0:
+        code = 0
+        try:
+            os.close(r)
+            signal.alarm(0)
+            try:
+                out = _run(case)
+            except BaseException as e:  # noqa: BLE001
+                out = {"__crash__": f"{type(e).__name__}: {e}", "__trace__": traceback.format_exc()[-1500:]}
+            with os.fdopen(w, "wb") as f:
+                f.write(json.dumps(out).encode())
+        except BaseException:  # noqa: BLE001
+            code = 1
+        finally:
+            os._exit(code)
+    os.close(w)
+    try:
+        with os.fdopen(r, "rb") as f:
+            data = f.read()
+        os.waitpid(pid, 0)
+    except BaseException:
+        try:
+            os.kill(pid, signal.SIGKILL)
+            os.waitpid(pid, 0)
+        except Exception:  # noqa: BLE001
+            pass
+        raise
+    if not data:
+        return {"__crash__": "the child process running the simulation died without a result"}
+    return json.loads(data)
 
 
 def _num(v):
@@ -388,21 +630,37 @@ def _num(v):
     return [a, b]
 
 
-def canon_result(df, o, pd):
-    """get_results()[name] -> JSON: adding: {"cols": [...], "rows": [[cat..., value]]}; concatenating: cols + rows"""
+VALUE_COLS = ("value", "n", "sy")
+
+
+def canon_result(df, o, pd, tick=int):
+    """get_results()[name] -> JSON: adding: {"cols": [...], "rows": [[cat..., value(s)]]}; concatenating: cols + rows.
+    The effect of the observation's own results_formatter (a user callable) is undone first."""
     if df is None:
         return None
+    fmt = o.get("fmt")
+    try:
+        if fmt == "identity" and o["type"] == "add":
+            df = df.reset_index()
+        elif fmt == "measure" and "measure" in df.columns and (df["measure"] == o["name"]).all():
+            df = df.drop(columns=["measure"])
+        elif fmt == "inplace2":
+            df = df.copy()
+            for c in df.columns:
+                if c in VALUE_COLS:
+                    df[c] = df[c] / 2
+    except Exception:  # noqa: BLE001
+        pass
+    cols = [str(c) for c in df.columns]
+    recs = df.to_dict("records")
+    rows = []
     if o["type"] == "cat":
-        cols = [str(c) for c in df.columns]
-        rows = []
-        for _, r in df.iterrows():
-            rows.append([(int(r[c]) if c in ("event_time", "sid", "y") else str(r[c]) if c in ("g", "h") else _num(r[c]))
+        for r in recs:
+            rows.append([(tick(r[c]) if c == "event_time" else int(r[c]) if c in ("sid", "y") else str(r[c]) if c in ("g", "h") else _num(r[c]))
                          for c in df.columns])
         return {"cols": cols, "rows": rows}
-    cols = [str(c) for c in df.columns]
-    rows = []
-    for _, r in df.iterrows():
-        rows.append([(str(r[c]) if c != "value" else _num(r[c])) for c in df.columns])
+    for r in recs:
+        rows.append([(_num(r[c]) if c in VALUE_COLS else str(r[c])) for c in df.columns])
     return {"cols": cols, "rows": rows}
 
 
@@ -416,10 +674,9 @@ def strat_cats(s):
 def raw_category(s, r):
     """reference semantics of the probe mapper of stratification `s` on snapshot row `r`"""
     k = s["kind"]
-    if k == "xb":
-        return _bin(r["x"], EDGES_X, strat_cats(s)) if len(strat_cats(s)) + 1 == len(EDGES_X) else "NaN"
-    if k == "pvb":
-        return _bin(pv_of(r), EDGES_PV, strat_cats(s)) if len(strat_cats(s)) + 1 == len(EDGES_PV) else "NaN"
+    if k in BINNED:
+        num, edges = BINNED[k]
+        return _bin(num(r), edges, strat_cats(s)) if len(strat_cats(s)) + 1 == len(edges) else "NaN"
     return KINDS[k][1](r)
 
 
@@ -436,7 +693,7 @@ def invalid_reason(case):
         if kind == "s":
             s = case["strats"][i]
             c = strat_cats(s)
-            if s["kind"] in ("xb", "pvb") and len(c) + 1 != len(EDGES_X if s["kind"] == "xb" else EDGES_PV):
+            if s["kind"] in BINNED and len(c) + 1 != len(BINNED[s["kind"]][1]):
                 return "bad-bins"
             if s["name"] in seen:
                 return "dup-strat"
@@ -450,9 +707,14 @@ def invalid_reason(case):
             seen.add(s["name"])
         else:
             o = case["obs"][i]
+            if o.get("nocb") and o.get("method") in ("stratified", "unstratified") and o.get("via") != "observer":
+                return "missing-callable"
             if o["name"] in onames:
                 return "dup-observation"
             onames.add(o["name"])
+    for o in case["obs"]:
+        if o.get("nocb") and o.get("method") in ("stratified", "unstratified"):
+            return "missing-callable"
     for o in case["obs"]:
         if o["type"] == "add" and set(obs_strat_names(case, o)) - seen:
             return "missing-strat"
@@ -481,30 +743,35 @@ def to_observe(o, time):
 def concat_payload(o, r):
     out = [r["sid"]]
     for c in o["cols"]:
-        out.append({"y": r["y"], "x": r["x"], "pv": pv_of(r)}[c])
+        out.append(PIPES[c](r) if c in PIPES else r[c])
     return out
 
 
-def impl_table(res, names, scale):
-    """canonical form of an adding observation's formatted result: {key tuple (sorted names): int | str}, problems"""
+def impl_table(res, names, scale, vcol="value", vset=("value",)):
+    """canonical form of an adding observation's formatted result: {key tuple (sorted names): int | str}, problems.
+    `vcol` = the value column looked at, `vset` = all value columns the observation's aggregator produces."""
     probs = []
     cols = res["cols"]
+    if len(vset) > 1 and "value" in cols and not (set(vset) - {"value"}) & set(cols):
+        # an aggregator returning a Series: its columns appear with the first recorded increment; until then they are 0
+        cols = cols + [c for c in vset if c != "value"]
+        res = {"cols": cols, "rows": [r + [[0, 1]] * (len(vset) - 1) for r in res["rows"]]}
     if names:
-        if set(cols) != set(names) | {"value"} or len(cols) != len(names) + 1:
-            probs.append(f"columns {cols}, expected {sorted(names)} + value")
+        if set(cols) != set(names) | set(vset) or len(cols) != len(names) + len(vset):
+            probs.append(f"columns {cols}, expected {sorted(names)} + {list(vset)}")
             return None, probs
         order = [cols.index(n) for n in names]
     else:
         # not stratified: one row; how the framework labels it ("stratification" = "all") is not part of the property
-        if "value" not in cols or len(cols) != 2:
-            probs.append(f"columns {cols}, expected one label column + value")
+        if not set(vset) <= set(cols) or len(cols) != 1 + len(vset):
+            probs.append(f"columns {cols}, expected one label column + {list(vset)}")
             return None, probs
         order = None
-    vi = cols.index("value")
+    vi = cols.index(vcol) if vcol in cols else None
     tab = {}
     for row in res["rows"]:
         k = tuple(row[j] for j in order) if order is not None else ("all",)
-        v = row[vi]
+        v = row[vi] if vi is not None else [0, 1]
         if isinstance(v, list):
             f = Fraction(v[0], v[1]) * scale
             v = int(f) if f.denominator == 1 else str(f)
@@ -529,7 +796,7 @@ def impl_concat(res, o):
         rr = []
         for c in want:
             v = row[cols.index(c)]
-            if c in ("x", "pv"):
+            if c == "x" or c in PIPES:
                 f = Fraction(v[0], v[1]) * SCALE if isinstance(v, list) else None
                 v = int(f) if f is not None and f.denominator == 1 else str(v)
             rr.append(v)
@@ -563,7 +830,7 @@ class C16(Prop):
                "query/groupby/cut/reindex are inputs of the model: their outputs on the snapshot rows are recomputed by "
                "reference Python in the harness; aggregators are additive (count, sums); float arithmetic idealised "
                "(all values exact dyadics)")
-    n_quick = 150
+    n_quick = 100
     n_thorough = 2000
     workers = 8
     case_timeout = 60
@@ -585,11 +852,12 @@ class C16(Prop):
 
     # ------------------------------------------------------------------ implementation
     def run_impl(self, case):
-        return _run(case)
+        return _run_isolated(case)
 
     # ------------------------------------------------------------------ model
     def model_lines(self, case, obs):
         L = []
+        V = vobs_indexed(case)
         for name, cats in sorted((case["cfg_excl"] or {}).items()):
             L.append(f"cfgexcl {name} {_lst(cats)}")
         if case["cfg_default"] is not None:
@@ -598,19 +866,22 @@ class C16(Prop):
             if kind == "s":
                 s = case["strats"][i]
                 ex = s.get("excl_code")
-                edges = {"xb": EDGES_X, "pvb": EDGES_PV}.get(s["kind"])
+                edges = BINNED[s["kind"]][1] if s["kind"] in BINNED else None
                 L.append(f"strat {s['name']} {_lst(strat_cats(s))} {'none' if ex is None else _lst(ex)} "
                          f"{'none' if edges is None else _lst(edges)}")
             else:
-                o = case["obs"][i]
-                if o["type"] == "add":
-                    L.append(f"obs add {o['name']} {o['when']} {_lst(o['add'])} {_lst(o['exc'])}")
-                else:
-                    L.append(f"obs cat {o['name']} {o['when']}")
+                for o in V:
+                    if o["src"] != case["obs"][i]["name"] or o["_i"] != i:
+                        continue
+                    nocb = " nocb" if (o.get("nocb") and o.get("method") in ("stratified", "unstratified")) else ""
+                    if o["type"] == "add":
+                        L.append(f"obs add {o['name']} {o['when']} {_lst(o['add'])} {_lst(o['exc'])}{nocb}")
+                    else:
+                        L.append(f"obs cat {o['name']} {o['when']}{nocb}")
         L.append("setup")
         if obs["outcome"] in ("construct-error", "setup-error", "init-error"):
             return L
-        for o in case["obs"]:
+        for o in V:
             L.append(f"names {o['name']}")
         regs = registered_strats(case)
         for ev in obs["events"]:
@@ -621,15 +892,13 @@ class C16(Prop):
             for r in rows:
                 toks = []
                 for s in regs:
-                    if s["kind"] == "xb":
-                        toks.append(str(r["x"]))
-                    elif s["kind"] == "pvb":
-                        toks.append(str(pv_of(r)))
+                    if s["kind"] in BINNED:
+                        toks.append(str(BINNED[s["kind"]][0](r)))
                     else:
                         toks.append(raw_category(s, r))
                 raws.append(",".join(toks) if toks else "-")
             line = f"ev {ph} {ev['time']} {bits} {';'.join(raws) if raws else '-'}"
-            for o in case["obs"]:
+            for o in V:
                 if o["when"] != ph:
                     continue
                 t = 1 if to_observe(o, ev["time"]) else 0
@@ -641,18 +910,20 @@ class C16(Prop):
                 line += f" {o['name']}:{t}:{pb}:{data}"
             L.append(line)
             if ev["after"] is not None:
-                for o in case["obs"]:
+                for o in V:
                     if o["when"] == ph:
                         L.append(f"get {o['name']}")
         if obs["final"] is not None:
-            for o in case["obs"]:
+            for o in V:
                 L.append(f"get {o['name']}")
         return L
 
     def compare(self, case, obs, replies):
         dis = []
         it = iter(replies)
-        nreg = len((case["cfg_excl"] or {})) + (1 if case["cfg_default"] is not None else 0) + len(case["order"]) + 1
+        V = vobs_indexed(case)
+        nreg = (len((case["cfg_excl"] or {})) + (1 if case["cfg_default"] is not None else 0)
+                + sum(1 for k, _ in case["order"] if k == "s") + len(V) + 1)
         reg = [next(it) for _ in range(nreg)]
         if any(r == "bad-op" for r in reg):
             return ["driver: bad-op in registration " + str(reg)]
@@ -663,10 +934,10 @@ class C16(Prop):
         if impl_rejects or model_rejects:
             return dis
         onames = {}
-        for o in case["obs"]:
+        for o in V:
             r = next(it)
             onames[o["name"]] = [] if r == "ok -" else r[3:].split(",")
-        scale = {o["name"]: agg_scale(o["agg"]) if o["type"] == "add" else 1 for o in case["obs"]}
+        scale = {o["name"]: agg_scale(o["agg"]) if o["type"] == "add" else 1 for o in V}
 
         def same(o, res, reply, where):
             if not reply.startswith("ok"):
@@ -679,7 +950,7 @@ class C16(Prop):
                     mt[tuple([] if (k == "all" and not onames[o["name"]]) else k.split("|"))] = int(v)
                 if not onames[o["name"]]:
                     mt = {("all",): v for v in mt.values()}
-                tab, probs = impl_table(res, onames[o["name"]], scale[o["name"]])
+                tab, probs = impl_table(res, onames[o["name"]], scale[o["name"]], o["vcol"], o["vset"])
                 if probs or tab != mt:
                     return [f"{where} {o['name']}: implementation {probs or _short(tab)}, model {_short(mt)}"]
                 return []
@@ -700,16 +971,19 @@ class C16(Prop):
                            f"{'raised ' + str(obs['error']) if raised_here else 'continued'}, model {r}")
                 return dis
             if ev["after"] is not None:
-                for o in case["obs"]:
+                for o in V:
                     if o["when"] == PH[ev["phase"]]:
-                        dis += same(o, ev["after"].get(o["name"]), next(it), f"after event {n} (step {ev['step']} {PH[ev['phase']]})")
+                        dis += same(o, ev["after"].get(o["src"]), next(it), f"after event {n} (step {ev['step']} {PH[ev['phase']]})")
                 if dis:
                     return dis
         if stopped_impl and not (obs["events"] and obs["events"][-1]["after"] is None):
             dis.append(f"implementation raised outside an observed event: {obs['error']}")
         if obs["final"] is not None:
-            for o in case["obs"]:
-                dis += same(o, obs["final"].get(o["name"]), next(it), "final")
+            for o in V:
+                reply = next(it)
+                dis += same(o, obs["final"].get(o["src"]), reply, "final")
+                if obs.get("after_finalize") is not None:
+                    dis += same(o, obs["after_finalize"].get(o["src"]), reply, "after finalize")
             if obs.get("final_extra"):
                 dis.append(f"unexpected measures {obs['final_extra']}")
         return dis
@@ -723,7 +997,7 @@ class C16(Prop):
             return False
         for o in case["obs"]:
             res = obs["final"].get(o["name"])
-            if res and o["type"] == "add" and any(isinstance(r[-1], list) and r[-1][0] != 0 for r in res["rows"]):
+            if res and o["type"] == "add" and any(isinstance(v, list) and v[0] != 0 for r in res["rows"] for v in r):
                 return True
             if res and o["type"] == "cat" and res["rows"]:
                 return True
@@ -735,6 +1009,15 @@ class C16(Prop):
     def sample_view(self, case, obs):
         return {"case": case, "outcome": obs["outcome"], "error": obs["error"], "events": len(obs["events"]),
                 "first_event": (obs["events"][0] if obs["events"] else None), "final": obs["final"]}
+
+
+def vobs_indexed(case):
+    """virtual observations with the index of their source in case["obs"] (two entries of case["obs"] may share a name)"""
+    out = []
+    for i, o in enumerate(case["obs"]):
+        for v in vobs({"obs": [o]}):
+            out.append(dict(v, _i=i))
+    return out
 
 
 def _lst(xs):
@@ -764,11 +1047,18 @@ def oracle(case, obs):
             fail("setup-raised", f"a valid observer program was refused: {obs['error']}")
         return fails
     if why is not None:
-        return fails          # an invalid program the code accepted: outside the property
+        # an invalid program the code accepted.  Mostly outside the property (only the correspondence flags it), but some
+        # of them make the property unsatisfiable: two observations under one name cannot both be reported; a
+        # stratification that is not registered or has a repeated category cannot give "one row per combination"; an
+        # observation without its updater / gatherer cannot accumulate anything
+        if why in ("dup-observation", "dup-strat", "dup-category", "missing-strat", "missing-callable"):
+            fail("invalid-program-accepted:" + why, f"setup accepted a program with {why}; outcome {obs['outcome']}")
+        return fails
     regs = registered_strats(case)
     allcats = {s["name"]: strat_cats(s) for s in regs}
     kept = {s["name"]: [c for c in strat_cats(s) if c not in exclusions(case, s)] for s in regs}
-    adding = [o for o in case["obs"] if o["type"] == "add"]
+    V = vobs(case)
+    adding = [o for o in V if o["type"] == "add"]
     names = {o["name"]: obs_strat_names(case, o) for o in adding}
     full = {o["name"]: ([tuple(k) for k in itertools.product(*[kept[n] for n in names[o["name"]]])] if names[o["name"]] else [("all",)])
             for o in adding}
@@ -782,7 +1072,7 @@ def oracle(case, obs):
         if res is None:
             fail("result-missing", f"{where}: no result for {o['name']}")
             return None
-        tab, probs = impl_table(res, names[o["name"]], agg_scale(o["agg"]))
+        tab, probs = impl_table(res, names[o["name"]], agg_scale(o["agg"]), o["vcol"], o["vset"])
         if tab is None:
             fail("result-shape", f"{where} {o['name']}: {probs}")
             return None
@@ -805,6 +1095,17 @@ def oracle(case, obs):
         where = f"event {n} (step {ev['step']} {ph})"
         rows = ev["rows"]
         inev = [r for r in rows if r["in_event"]]
+        if not isinstance(ev["time"], int):
+            fail("harness-inexact", f"{where}: event time {ev['time']} is not a whole number of days")
+            return fails
+        if not case.get("slow"):
+            # expectations from the CONFIGURATION, not from what the implementation reports: start 0, step 1, everybody who
+            # existed when the phase began is in the event (simulants born by the probe's priority-0 listener are not)
+            if ev["time"] != ev["step"] + 1 or ev["clock"] != ev["step"]:
+                fail("event-time", f"{where}: clock {ev['clock']}, event time {ev['time']}; configured start 0, step 1")
+            bad = [r["idx"] for r in rows if r["in_event"] != (r["idx"] < ev["n_before"])]
+            if bad:
+                fail("event-index", f"{where}: simulants {bad[:6]} wrongly in / not in event.index ({ev['n_before']} existed when the phase began)")
         if any(not r["xexact"] for r in rows):
             fail("harness-inexact", f"{where}: an x value is not a multiple of 1/4")
         # unknown categories: `wide` = some mapper was given a simulant of the event and produced an unknown category;
@@ -827,7 +1128,7 @@ def oracle(case, obs):
         if ev["after"] is None:
             fail("simulation-raised", f"{where}: {obs['error']}")
             return fails
-        for o in case["obs"]:
+        for o in V:
             if o["when"] != ph:
                 continue
             observing = to_observe(o, ev["time"])
@@ -849,7 +1150,7 @@ def oracle(case, obs):
                     ever[o["name"]].add(k)
             for k, v in inc.items():
                 running[o["name"]][k] += v
-            tab = check_shape(o, ev["after"].get(o["name"]), where)
+            tab = check_shape(o, ev["after"].get(o["src"]), where)
             if tab is None or set(tab) != set(full[o["name"]]):
                 return fails
             got_inc = {k: tab[k] - before[o["name"]][k] for k in tab}
@@ -868,21 +1169,27 @@ def oracle(case, obs):
     if obs["final"] is None:
         fail("no-results", "get_results() was not reached")
         return fails
-    for o in case["obs"]:
-        res = obs["final"].get(o["name"])
-        if o["type"] == "cat":
-            got = impl_concat(res, o)
-            if canon_concat(got) != canon_concat(cexp[o["name"]]):
-                fail("concat-rows", f"final {o['name']}: rows {str(got)[:300]}, eligible rows event after event {str(cexp[o['name']])[:300]}")
+    if obs["outcome"] != "ok":
+        fail("simulation-raised", f"{obs['outcome']}: {obs['error']}")
+    # the results read after the last step and the results read after finalize(): both must be the sum of the increments
+    for label, final in (("final", obs["final"]), ("after finalize", obs.get("after_finalize"))):
+        if final is None:
             continue
-        tab = check_shape(o, res, "final")
-        if tab is None or set(tab) != set(full[o["name"]]):
-            continue
-        if tab != running[o["name"]]:
-            fail("final-not-sum-of-increments", f"final {o['name']}: reported {_nz(tab)}, sum of the per-event increments {_nz(running[o['name']])}")
-        nzu = {k: v for k, v in tab.items() if k not in ever[o["name"]] and v != 0}
-        if nzu:
-            fail("nonzero-where-nothing-observed", f"final {o['name']}: {nzu}")
+        for o in V:
+            res = final.get(o["src"])
+            if o["type"] == "cat":
+                got = impl_concat(res, o)
+                if canon_concat(got) != canon_concat(cexp[o["name"]]):
+                    fail("concat-rows", f"{label} {o['name']}: rows {str(got)[:300]}, eligible rows event after event {str(cexp[o['name']])[:300]}")
+                continue
+            tab = check_shape(o, res, label)
+            if tab is None or set(tab) != set(full[o["name"]]):
+                continue
+            if tab != running[o["name"]]:
+                fail("final-not-sum-of-increments", f"{label} {o['name']}: reported {_nz(tab)}, sum of the per-event increments {_nz(running[o['name']])}")
+            nzu = {k: v for k, v in tab.items() if k not in ever[o["name"]] and v != 0}
+            if nzu:
+                fail("nonzero-where-nothing-observed", f"{label} {o['name']}: {nzu}")
     return fails
 
 
@@ -918,6 +1225,11 @@ def tags(case, obs):
         t.append("to_observe:" + ("always" if o["mod"] <= 1 else "sometimes"))
         if o.get("via") == "observer":
             t.append("via-observer-config")
+        t.append("method:" + (o.get("method") or ("adding" if o["type"] == "add" else "concatenating")))
+        t.append("formatter:" + (o.get("fmt") or "default"))
+        used_pipes = ({a[0] for a in (o["filter"] or [])} | set(o.get("cols", []))) & set(PIPES)
+        if len(used_pipes) >= 2:
+            t.append("observation-needs-2+-pipelines")
         if o["type"] == "add":
             t.append("agg:" + o["agg"])
             if why is None:
@@ -928,6 +1240,13 @@ def tags(case, obs):
                 t.append("excluded-strat")
     if why is None and shared_frame_hazard(case):
         t.append("unfiltered-excluding-group-then-other-group-same-phase")
+    t.append("clock:" + (case.get("clock") or "simple") + ("+per-simulant-steps" if case.get("slow") else ""))
+    if case.get("prior"):
+        t.append(f"prior-simulations-in-process:{len(case['prior'])}")
+    if case.get("callobj"):
+        t.append("callables-as-objects")
+    if obs.get("after_finalize") is not None:
+        t.append("results-read-after-finalize")
     if case.get("unknown"):
         t.append("unknown-injected:" + case["unknown"]["col"])
     sizes = set()
@@ -942,13 +1261,15 @@ def tags(case, obs):
     if obs["events"]:
         births = len(obs["events"][-1]["rows"]) > case["pop"]
     t += ["births"] * births + ["untracked"] * untracked + ["born-in-phase(not-in-event)"] * notinev + ["x-on-bin-edge"] * edge
+    if case.get("slow") and any(any((not r["in_event"]) and r["idx"] < case["pop"] for r in ev["rows"]) for ev in obs["events"]):
+        t.append("event-index-smaller-than-population(per-simulant-clock)")
     if obs["outcome"] == "run-error":
         t.append("stopped:" + str(obs.get("error_class")))
     if obs["outcome"] == "ok" and obs["final"]:
         for o in case["obs"]:
             res = obs["final"].get(o["name"])
             if res and o["type"] == "add":
-                z = [r for r in res["rows"] if r[-1] == [0, 1]]
+                z = [r for r in res["rows"] if [0, 1] in r[-1:]]
                 t.append("has-zero-stratum" if z else "all-strata-nonzero")
                 t.append(f"rows:{'1' if len(res['rows']) == 1 else '2-6' if len(res['rows']) <= 6 else '7+'}")
     return t
@@ -974,7 +1295,8 @@ def shared_frame_hazard(case):
 
 # ---------------------------------------------------------------------------------------- generation
 
-FILTERS = [None, None, None, [], [], [], [], [["tracked", "==", True], ["y", ">", 2]], [["x", "<", 5.0]], [["y", ">=", 1]],
+FILTERS = [None, None, None, [], [], [], [], [["pw", ">=", 2.0]], [["pz", "==", 0.0], ["tracked", "==", True]],
+           [["g", "in", ["a", "c"]]], [["pv", "<", 3.0], ["pw", "!=", 2.0]], [["c", "!=", "c2"]], [["tracked", "==", True], ["y", ">", 2]], [["x", "<", 5.0]], [["y", ">=", 1]],
            [["g", "==", "a"]], [["pv", ">", 1.0]], [["tracked", "==", True], ["g", "!=", "b"]], [["x", ">=", 3.0]],
            [["tracked", "==", True]], [["h", "==", "u"], ["y", "<=", 4]], [["tracked", "==", False]]]
 TRAJ0 = {"p_edge": 0.25, "max_births": 0, "p_birth": 0.0, "p_change": 0.0, "p_untrack": 0.0}
@@ -987,10 +1309,17 @@ def gen_obs(rng, k, snames, defaults):
          "rem": rng.randrange(mod)}
     if o["when"] == "collect_metrics" and rng.random() < 0.5:
         o["default_when"] = True                   # rely on the interface's default phase
+    if rng.random() < 0.2:
+        o["method"] = "stratified" if typ == "add" else "unstratified"      # the general interface methods, own updater / gatherer
+    r = rng.random()
+    if r < 0.3:
+        o["fmt"] = rng.choice(["identity", "measure", "inplace2"] if typ == "add" else ["identity", "measure"])
     if typ == "cat":
-        o["cols"] = rng.sample(["y", "x", "pv"], rng.randint(0, 3))
+        o["cols"] = rng.sample(["y", "x", "pv", "pw"], rng.randint(0, 4))
         return o
     o["add"] = [s for s in snames if rng.random() < 0.5]
+    if o["add"] and rng.random() < 0.1:
+        o["add"] = o["add"] + [o["add"][0]]            # named twice
     o["exc"] = [s for s in defaults if rng.random() < 0.3]
     if snames and rng.random() < 0.1:
         o["exc"].append(rng.choice(snames))        # possibly not a default: a no-op with a warning
@@ -1003,13 +1332,31 @@ def gen_obs(rng, k, snames, defaults):
     return o
 
 
-def gen_case(rng, tier):
+def gen_prior(rng, tier):
+    """an earlier simulation of the same process: its own stratifications, NON-EMPTY default stratifications, observations
+    that rely on the default arguments of the interface (no additional / excluded stratifications passed)"""
+    p = gen_case(rng, tier, allow_prior=False)
+    while not p["strats"] or invalid_reason(p):
+        p = gen_case(rng, tier, allow_prior=False)
+    p["cfg_default"] = sorted({s["name"] for s in p["strats"] if rng.random() < 0.7} or {p["strats"][0]["name"]})
+    for o in p["obs"]:
+        if o["type"] == "add":
+            o["add"], o["exc"] = [], []
+            o.pop("pass_empty", None)
+            o.pop("via", None)
+    p["steps"], p["pop"], p["unknown"] = 1, min(p["pop"], 3), None
+    return p
+
+
+def gen_case(rng, tier, allow_prior=True):
     big = tier == "thorough"
     ns = rng.choice([0, 1, 1, 2, 2, 2, 3, 3, 4] if big else [0, 1, 1, 2, 2, 3, 3])
     kinds = rng.sample(sorted(KINDS), ns)
     strats = []
     for k in kinds:
         s = {"name": k, "kind": k, "excl_code": None}
+        if k in BINNED and rng.random() < 0.6:
+            s["edges_as"] = rng.choice(["int", "tuple", "ndarray"])
         r = rng.random()
         cats = KINDS[k][0]
         if r < 0.25:
@@ -1033,17 +1380,28 @@ def gen_case(rng, tier):
     if strats and rng.random() < 0.4:
         crowd_phase(rng, case_strats=strats, cfg_excl=cfg_excl, obs=obs, snames=snames, defaults=defaults, big=big)
     steps = rng.randint(1, 6 if big else 4)
-    traj = {"p_edge": 0.25, "max_births": rng.choice([1, 2, 3 if big else 2]), "p_birth": rng.choice([0.0, 0.3, 0.6]),
+    traj = {"p_edge": 0.25, "zero_births": rng.random() < 0.3, "max_births": rng.choice([1, 2, 3 if big else 2]), "p_birth": rng.choice([0.0, 0.3, 0.6]),
             "p_change": rng.choice([0.0, 0.2, 0.5]), "p_untrack": rng.choice([0.0, 0.15, 0.4])}
     case = {"pop": rng.choice([0, 1, 1, 2, 3, 5, 8] + ([13, 21] if big else [])), "steps": steps, "tseed": rng.randrange(10 ** 6),
             "traj": traj, "unknown": None, "strats": strats, "cfg_default": cfg_default, "cfg_excl": cfg_excl, "obs": obs}
+    r = rng.random()
+    if r < 0.3:
+        case["clock"] = "datetime"
+        if r < 0.2:
+            # per-simulant clocks: some simulants take longer steps, so event.index is SMALLER than the population
+            mod = rng.choice([2, 2, 3])
+            case["slow"] = {"mod": mod, "rem": rng.randrange(mod), "days": rng.choice([2, 3])}
+    if rng.random() < 0.25:
+        case["callobj"] = True
+    if allow_prior and rng.random() < 0.3:
+        case["prior"] = [gen_prior(rng, tier) for _ in range(rng.choice([1, 1, 2]))]
     if rng.random() < 0.22:
         case["unknown"] = {"step": rng.randrange(steps), "phase": rng.randrange(4), "col": rng.choice(["g", "h", "x"]),
                            "who": rng.randrange(100)}
     # a category missing from the declared list: the mapper will run into it sooner or later
     if strats and rng.random() < 0.06:
         s = rng.choice(strats)
-        if s["kind"] not in ("xb", "pvb"):
+        if s["kind"] not in BINNED:
             full = KINDS[s["kind"]][0]
             s["cats"] = full[:-1]
             s["excl_code"] = [c for c in (s["excl_code"] or []) if c in s["cats"]] if s["excl_code"] is not None else None
@@ -1051,14 +1409,14 @@ def gen_case(rng, tier):
                 cfg_excl[s["name"]] = [c for c in cfg_excl[s["name"]] if c in s["cats"]]
     # programs the real code must refuse at setup
     r = rng.random()
-    if r < 0.10:
+    if r < 0.14:
         bad = rng.choice(["dup-strat", "dup-category", "unknown-exclusion", "unknown-exclusion-config", "all-excluded", "bad-bins",
-                          "dup-observation", "missing-strat"])
+                          "dup-observation", "dup-observation-other-kind", "missing-strat", "missing-callable"])
         if bad == "dup-strat" and strats:
             strats.append(dict(rng.choice(strats)))
         elif bad == "dup-category" and strats:
             s = rng.choice(strats)
-            if s["kind"] not in ("xb", "pvb"):
+            if s["kind"] not in BINNED:
                 s["cats"] = strat_cats(s) + [strat_cats(s)[0]]
         elif bad == "unknown-exclusion" and strats:
             rng.choice(strats)["excl_code"] = ["nope"]
@@ -1073,6 +1431,15 @@ def gen_case(rng, tier):
             strats.append({"name": "xb2", "kind": "xb", "excl_code": None, "cats": ["lo", "hi"]})
         elif bad == "dup-observation":
             obs.append(dict(rng.choice(obs)))
+        elif bad == "dup-observation-other-kind":
+            d = gen_obs(rng, 99, snames, defaults)         # same name, anything else different (type, phase, method …)
+            d["name"] = rng.choice(obs)["name"]
+            d.pop("via", None)
+            obs.append(d)
+        elif bad == "missing-callable":
+            o = rng.choice(obs)
+            o["method"] = "stratified" if o["type"] == "add" else "unstratified"
+            o["nocb"] = True
         elif bad == "missing-strat":
             o = rng.choice(obs)
             if o["type"] == "add":
@@ -1136,6 +1503,9 @@ def mk(pop, steps, strats, obs, **kw):
     case = {"pop": pop, "steps": steps, "tseed": kw.pop("tseed", 1), "traj": dict(TRAJ0, **kw.pop("traj", {})), "unknown": kw.pop("unknown", None),
             "strats": strats, "cfg_default": kw.pop("cfg_default", None), "cfg_excl": kw.pop("cfg_excl", {}), "obs": obs}
     case["order"] = kw.pop("order", [["s", i] for i in range(len(strats))] + [["o", i] for i in range(len(obs))])
+    for k in ("clock", "slow", "callobj", "prior"):
+        if k in kw:
+            case[k] = kw.pop(k)
     assert not kw
     return case
 
@@ -1149,8 +1519,8 @@ def A(name, when="collect_metrics", flt=None, add=(), exc=(), agg="len", mod=1, 
                  "mod": mod, "rem": rem}, **kw)
 
 
-def Cc(name, when="collect_metrics", flt=None, cols=("y",), mod=1, rem=0):
-    return {"name": name, "type": "cat", "when": when, "filter": flt, "cols": list(cols), "mod": mod, "rem": rem}
+def Cc(name, when="collect_metrics", flt=None, cols=("y",), mod=1, rem=0, **kw):
+    return dict({"name": name, "type": "cat", "when": when, "filter": flt, "cols": list(cols), "mod": mod, "rem": rem}, **kw)
 
 
 def boundary_cases():
@@ -1229,6 +1599,53 @@ def boundary_cases():
     out.append(mk(9, 2, [S("gcat"), S("ysort"), S("hrev"), S("xfr")],
                   [A("all4", add=["gcat", "ysort", "hrev", "xfr"]), A("two", add=["ysort", "xfr"], agg="sumpv", flt=[])],
                   traj={"p_change": 0.5}, tseed=23))
+    # ---- audit against notes/LESSONS.md
+    # several value pipelines required at once (stratifications, filter, aggregator and included columns all through
+    # requires_values; one pipeline has a modifier and returns its values in reversed row order, one comes from another component)
+    out.append(mk(7, 3, [S("pq"), S("zw", ["z1w2"]), S("pwb"), S("pvb")],
+                  [A("by_pq", add=["pq"], agg="sumpw", flt=[["pz", "==", 0.0], ["tracked", "==", True]]),
+                   A("by_zw", add=["zw", "pwb"], agg="sumpv", flt=[["pw", ">=", 2.0]], when="time_step"),
+                   A("by_bins", add=["pvb", "pwb"], flt=[]), Cc("rows", cols=["pv", "pw", "y"], flt=[["pv", "<", 3.0], ["pw", "!=", 2.0]])],
+                  traj={"p_change": 0.4, "p_untrack": 0.2, "p_birth": 0.4, "max_births": 1}, tseed=31))
+    # every interface method: adding / stratified (own updater) / concatenating / unstratified (own gatherer + updater),
+    # every formatter, an aggregator returning a Series, callables given as objects
+    for objs in (False, True):
+        out.append(mk(6, 3, [S("g", ["c"]), S("h2")],
+                      [A("adding", add=["g"], fmt="inplace2"), A("stratified", add=["g", "h2"], agg="sumy", method="stratified"),
+                       A("strat_fmt", add=["h2"], method="stratified", fmt="measure", flt=[]), A("ident", add=["g"], fmt="identity", agg="sumx"),
+                       A("multi", add=["g"], agg="multi", mod=2, rem=0), A("multi_all", agg="multi", method="stratified", fmt="inplace2"),
+                       Cc("concat", cols=["y", "pw"], fmt="measure"), Cc("unstrat", cols=["x"], method="unstratified", flt=[]),
+                       Cc("unstrat_fmt", cols=[], method="unstratified", fmt="identity", mod=2, rem=1)],
+                      traj={"p_change": 0.4, "p_untrack": 0.2}, tseed=32, callobj=objs))
+    # required callables missing / the same name under another kind of observation: refused
+    out.append(mk(2, 1, [S("g")], [A("n", method="stratified", nocb=True)]))
+    out.append(mk(2, 1, [S("g")], [Cc("c", method="unstratified", nocb=True)]))
+    out.append(mk(2, 1, [S("g")], [A("n", add=["g"]), Cc("n", when="time_step")]))
+    out.append(mk(2, 1, [S("g")], [Cc("n"), A("n", method="stratified", when="time_step__prepare", via="observer")]))
+    # DateTimeClock; per-simulant clocks: the even simulants step two days at a time, so every other event has an
+    # event.index smaller than the population (with births, untracking, an unfiltered observation and a concatenating one)
+    out.append(mk(5, 4, [S("g"), S("xb")], [A("n", add=["g"]), A("sx", add=["xb"], agg="sumx", flt=[], mod=2, rem=0), Cc("rows", cols=["x"])],
+                  clock="datetime", traj={"p_change": 0.3, "p_untrack": 0.2}, tseed=33))
+    for slow in ({"mod": 2, "rem": 0, "days": 2}, {"mod": 3, "rem": 1, "days": 3}, {"mod": 1, "rem": 0, "days": 2}):
+        out.append(mk(6, 5, [S("g"), S("pvs")],
+                      [A("n", add=["g"]), A("everyone", add=["pvs"], flt=[], agg="sumy"), A("prep", when="time_step__prepare", agg="multi"),
+                       Cc("rows", cols=["y", "pv"], flt=[])],
+                      clock="datetime", slow=slow, traj={"p_change": 0.3, "p_untrack": 0.15, "p_birth": 0.4, "max_births": 1}, tseed=34))
+    # earlier simulations in the same process with OTHER default stratifications (and observations relying on the default
+    # arguments of the interface): this simulation's observations must be stratified by its own defaults only
+    prior1 = mk(3, 1, [S("gy"), S("h2")], [A("p", agg="sumy"), A("q", when="time_step")], cfg_default=["gy", "h2"])
+    prior2 = mk(2, 1, [S("g", ["a"])], [A("p")], cfg_default=["g"], cfg_excl={"g": ["b"]})
+    out.append(mk(5, 2, [S("g"), S("xb")], [A("plain"), A("by_xb", add=["xb"]), A("strat", method="stratified", agg="sumx"), Cc("rows")],
+                  prior=[prior1], traj={"p_change": 0.3}, tseed=35))
+    out.append(mk(5, 2, [S("g"), S("h2")], [A("plain", flt=[]), A("by_default", exc=[]), A("none", exc=["h2"], via="observer")],
+                  cfg_default=["h2"], prior=[prior2, prior1], traj={"p_change": 0.3}, tseed=36))
+    # no observation at all (stratifications are still evaluated: an unknown category stops the run); a birth event of nobody
+    out.append(mk(3, 2, [S("g"), S("cdef", ["c2"])], [], traj={"p_change": 0.3, "zero_births": True}))
+    out.append(mk(3, 2, [S("g")], [], unknown={"step": 0, "phase": 1, "col": "g", "who": 0}))
+    # categorical-dtype column behind a default mapper; bin edges given as ints / tuple / ndarray
+    out.append(mk(6, 3, [S("cdef", ["c3"]), S("xb", edges_as="int"), S("pvb", edges_as="ndarray"), S("pwb", edges_as="tuple")],
+                  [A("by_c", add=["cdef"], flt=[["c", "!=", "c2"]]), A("bins", add=["xb", "pvb", "pwb"], flt=[]), A("cx", add=["cdef", "xb"], agg="multi")],
+                  traj={"p_change": 0.4, "zero_births": True, "p_birth": 0.3, "max_births": 1}, tseed=37))
     # registration order: observations before stratifications, columns in a different order than the sorted names
     out.append(mk(5, 2, [S("xb"), S("g"), S("h2")], [A("n", add=["h2", "xb", "g"], agg="sumx")],
                   order=[["o", 0], ["s", 2], ["s", 0], ["s", 1]], traj={"p_change": 0.5}))
@@ -1287,6 +1704,21 @@ def shrink_case(case):
             yield c
     if case.get("unknown"):
         yield dict(copy.deepcopy(case), unknown=None)
+    if case.get("prior"):
+        c = copy.deepcopy(case)
+        c["prior"] = c["prior"][:-1]
+        yield c
+    for k in ("callobj", "slow", "clock"):
+        if case.get(k) and not (k == "clock" and case.get("slow")):
+            c = copy.deepcopy(case)
+            del c[k]
+            yield c
+    for i, o in enumerate(case["obs"]):
+        for k in ("fmt", "method"):
+            if o.get(k) and not o.get("nocb"):
+                c = copy.deepcopy(case)
+                del c["obs"][i][k]
+                yield c
     for name in list(case["cfg_excl"] or {}):
         c = copy.deepcopy(case)
         del c["cfg_excl"][name]
